@@ -197,6 +197,8 @@ def signal_worker(k):
             ocp2.set_der(xs[-1], uu)
             ocp2.add_objective(ocp2.at_tf(xs[0]) ** 2)
             ocp2.subject_to(-100 <= (uu <= 100))
+            # an affine grid='inf' constraint with a constant offset: bounds on the spline coefficients
+            ocp2.subject_to(-7 <= (2 * xs[0] + 0.5 <= 9), grid="inf")
             ocp2.method(rockit.SplineMethod(N=N, grid=rockit.GeometricGrid(2.0)) if k.get("geo") else rockit.SplineMethod(N=N))
             ocp2.solver("ipopt", {"ipopt.print_level": 0, "print_time": False})
             tcn = ocp2.sample(xs[0], grid="control")[0]
@@ -210,8 +212,12 @@ def signal_worker(k):
             rng = np.random.RandomState(k["N"] * 7 + k["d"])
             xval = np.round(rng.uniform(-2, 2, xsym.numel()) * 8) / 8
             vals = [np.array(v).reshape(-1).tolist() for v in f(xval)]
+            from .. import nlp as _nlp
+            gf = ca.Function("gf", [xsym], [opti2.g, opti2.lbg, opti2.ubg])
+            gv, lbv, ubv = [np.array(v).reshape(-1) for v in gf(xval)]
+            inf_rows = sorted(float(h) for s_, i_, q_, h in _nlp.normal_rows(gv, lbv, ubv) if s_ == 1)
             out["sm"] = {"L": L, "gist_t": vals[0], "gist_c": vals[1], "t": vals[2], "v": vals[3], "u": vals[4], "gist_u": vals[5], "tc": vals[6],
-                         "rows": int(opti2.g.numel())}
+                         "rows": int(opti2.g.numel()), "ineq_rows": inf_rows}
     except Exception as e:
         out["error"] = "%s: %s" % (type(e).__name__, str(e)[:300])
         out["trace"] = traceback.format_exc()[-1500:]
@@ -282,6 +288,16 @@ def judge_signal(k, r):
         m = cdb_value(kn, dd, cg, (t - t0) / T)
         if not engine.close(v, m, rtol=1e-8, scale=abs(m)):
             return [{"what": "SplineMethod: refined sample of a state is not the Cox-de Boor value of its gist coefficients", "t": t, "rockit": v, "model": m}]
+    # grid='inf' on 2*x + 0.5 in [-7, 9]: for every coefficient c_j of x the rows 2 c_j + 0.5 - 9 <= 0 and
+    # -7 - (2 c_j + 0.5) <= 0 must be among the inequality rows
+    rows = list(sm.get("ineq_rows", []))
+    for cj in cg:
+        for h in (2 * cj + 0.5 - 9, -7 - (2 * cj + 0.5)):
+            hit = next((k_ for k_, v_ in enumerate(rows) if abs(v_ - h) <= 1e-9 * (1 + abs(h))), None)
+            if hit is None:
+                return [{"what": "SplineMethod: the grid='inf' bound on an affine expression with a constant offset is not imposed "
+                                 "on the spline coefficients", "coefficient": cj, "expected_row_value": h}]
+            rows.pop(hit)
     # the control is the L-th derivative in physical time: chain dynamics hold identically
     co = list(cg)
     for q in range(dd):
